@@ -547,8 +547,84 @@ func (fr *stFrame) eval(v ssa.Value) stNode {
 		return stHole{Name: fr.sym(u)}
 	case *ssa.Call:
 		return fr.evalCall(u)
+	case *ssa.Extract:
+		if lk, ok := u.Tuple.(*ssa.Lookup); ok && u.Index == 0 {
+			if n := fr.lookup(lk); n != nil {
+				return n
+			}
+		}
+	case *ssa.Lookup:
+		if n := fr.lookup(u); n != nil {
+			return n
+		}
 	}
 	return stUnknown{fmt.Sprintf("%T %s in %s", v, v.Name(), FnName(fr.fn))}
+}
+
+// lookup evaluates table[index] for an immutable package-level map literal of
+// strings (e.g. scheme by plain-HTTP flag): the alternatives by key.
+func (fr *stFrame) lookup(lk *ssa.Lookup) stNode {
+	ld, ok := lk.X.(*ssa.UnOp)
+	if !ok || ld.Op != token.MUL {
+		return nil
+	}
+	g, ok := ld.X.(*ssa.Global)
+	if !ok {
+		return nil
+	}
+	ml, ok := sxGlobalValue(g).(sxMapLit)
+	if !ok {
+		return nil
+	}
+	val := func(v sxVal) (stNode, bool) {
+		k, ok := v.(sxConst)
+		if !ok {
+			return nil, false
+		}
+		str, ok := constString(k.c)
+		return stLit(str), ok
+	}
+	if k, isConst := lk.Index.(*ssa.Const); isConst {
+		for i, key := range ml.keys {
+			if key.key() == (sxConst{k}).key() {
+				n, ok := val(ml.vals[i])
+				if ok {
+					return n
+				}
+				return nil
+			}
+		}
+		return stLit("")
+	}
+	if b, isBool := lk.Index.Type().Underlying().(*types.Basic); isBool && b.Kind() == types.Bool {
+		var arms [2]stNode = [2]stNode{stLit(""), stLit("")} // [true, false]
+		for i, key := range ml.keys {
+			n, ok := val(ml.vals[i])
+			if !ok {
+				return nil
+			}
+			if key.key() == "const:true" {
+				arms[0] = n
+			} else {
+				arms[1] = n
+			}
+		}
+		cond, neg := fr.cond(lk.Index)
+		if neg {
+			arms[0], arms[1] = arms[1], arms[0]
+		}
+		return stAlt{Cond: cond, Then: arms[0], Else: arms[1]}
+	}
+	// other key types: a chain of alternatives, "" when absent
+	var out stNode = stLit("")
+	for i := len(ml.keys) - 1; i >= 0; i-- {
+		n, ok := val(ml.vals[i])
+		if !ok {
+			return nil
+		}
+		out = stAlt{Cond: fr.sym(lk.Index) + "==" + ml.keys[i].key(), Then: n, Else: out}
+	}
+	return out
 }
 
 // stLitElems resolves the elements of a slice literal / variadic pack:
